@@ -50,11 +50,12 @@ use crate::prelude::*;
 
 /// Convert a JavaScript number to its canonical string representation.
 ///
-/// According to ECMAScript spec (7.1.12.1 NumberToString):
-/// - Very small numbers (< 1e-6) use exponential notation
-/// - Very large numbers (>= 1e21) use exponential notation
-/// - Otherwise use decimal notation
-/// - Integer values are printed without decimal point
+/// ECMAScript Number::toString (radix 10): the shortest decimal digits that read back
+/// to the same double, `k` digits with decimal exponent `n` (value = 0.digits × 10^n), laid out as
+/// - digits followed by zeros when `k <= n <= 21`
+/// - digits with a decimal point inside when `0 < n <= 21`
+/// - `0.000digits` when `-6 < n <= 0`
+/// - exponential notation (`d.ddde±x`) otherwise
 pub fn number_to_string(n: f64) -> String {
     if n.is_nan() {
         return "NaN".to_string();
@@ -70,66 +71,41 @@ pub fn number_to_string(n: f64) -> String {
         return "0".to_string();
     }
 
-    let abs_n = n.abs();
+    // `{:e}` yields the shortest digits that round-trip, as "d[.ddd]e<exp>"
+    let sci = format!("{:e}", n.abs());
+    let (mantissa, exp_str) = sci.split_once('e').unwrap_or((sci.as_str(), "0"));
+    let digits: String = mantissa.chars().filter(|c| *c != '.').collect();
+    let k = digits.len() as i32;
+    // Position of the decimal point relative to the start of the digits
+    let point = exp_str.parse::<i32>().unwrap_or(0) + 1;
 
-    // Check if it's an integer that can be represented exactly
-    if math::trunc(n) == n && abs_n < 1e21 {
-        // Format as integer (no decimal point)
-        return format!("{:.0}", n);
+    let mut out = String::new();
+    if n < 0.0 {
+        out.push('-');
     }
-
-    // Very small numbers (absolute value < 1e-6) use exponential notation
-    // Very large numbers (absolute value >= 1e21) use exponential notation
-    if !(1e-6..1e21).contains(&abs_n) {
-        // Use exponential notation
-        format_exponential(n)
+    if k <= point && point <= 21 {
+        out.push_str(&digits);
+        out.extend(core::iter::repeat_n('0', (point - k) as usize));
+    } else if 0 < point && point <= 21 {
+        out.extend(digits.chars().take(point as usize));
+        out.push('.');
+        out.extend(digits.chars().skip(point as usize));
+    } else if -6 < point && point <= 0 {
+        out.push_str("0.");
+        out.extend(core::iter::repeat_n('0', (-point) as usize));
+        out.push_str(&digits);
     } else {
-        // Use decimal notation
-        // We need to produce the shortest representation that round-trips
-        format_decimal(n)
-    }
-}
-
-/// Format a number in exponential notation matching JavaScript's output
-fn format_exponential(n: f64) -> String {
-    // Get the exponent
-    let abs_n = n.abs();
-    let exponent = math::floor(math::log10(abs_n)) as i32;
-    let mantissa = n / math::powi(10_f64, exponent);
-
-    // Format mantissa - remove trailing zeros after decimal point
-    let mantissa_str = if math::trunc(mantissa) == mantissa {
-        format!("{:.0}", mantissa)
-    } else {
-        let s = format!("{}", mantissa);
-        // Remove trailing zeros but keep at least one digit after decimal
-        s.trim_end_matches('0').to_string()
-    };
-
-    // Format exponent with sign
-    if exponent >= 0 {
-        format!("{}e+{}", mantissa_str, exponent)
-    } else {
-        format!("{}e{}", mantissa_str, exponent)
-    }
-}
-
-/// Format a number in decimal notation matching JavaScript's output
-fn format_decimal(n: f64) -> String {
-    // Use Rust's default formatting which handles most cases
-    let s = format!("{}", n);
-
-    // Remove trailing zeros after decimal point (but keep at least one digit)
-    if s.contains('.') {
-        let trimmed = s.trim_end_matches('0');
-        if trimmed.ends_with('.') {
-            format!("{}0", trimmed)
-        } else {
-            trimmed.to_string()
+        out.extend(digits.chars().take(1));
+        if k > 1 {
+            out.push('.');
+            out.extend(digits.chars().skip(1));
         }
-    } else {
-        s
+        let exponent = point - 1;
+        out.push('e');
+        out.push(if exponent < 0 { '-' } else { '+' });
+        out.push_str(&exponent.unsigned_abs().to_string());
     }
+    out
 }
 
 /// Convert a JavaScript string to a number according to ECMAScript ToNumber.
